@@ -74,7 +74,7 @@ class Interp:
 
     def initial(self):
         s = S()
-        s.now = 0
+        s.now = self.program.get('initial', 0)
         s.fired, s.defused, s.timers, s.conds, s.flags, s.settled = {}, set(), [], {}, {}, set()
         s.st = {p: {'pc': 0, 'status': 'new', 'wait': None, 'irqs': [], 'obs': [], 'mark': None} for p in self.procs}
         s.nat = {n: {'pc': 0, 'status': 'new', 'wait': None, 'obs': [], 'slept': -1} for n in self.nops}
@@ -313,7 +313,7 @@ class Interp:
     def successors(self, s):
         """[(state or ('outcome', ...))]"""
         u = self.until
-        at_start = isinstance(u, (int, float)) and u == 0
+        at_start = isinstance(u, (int, float)) and u == self.program.get('initial', 0)
         if isinstance(u, (int, float)) and s.now >= u and not at_start:
             return [('end', self.outcome(s))]
         en = self.enabled(s)
@@ -559,7 +559,7 @@ def run_real(program):
             async def main():
                 for f in ('f0',):
                     flags[f] = Flag()
-                env = simpy.Environment()
+                env = simpy.Environment(program.get('initial', 0))
                 holder['env'] = env
                 events, procs = build(env, flags)
                 async with Scope() as scope:
@@ -587,7 +587,7 @@ def run_real(program):
         else:
             for f in ('f0',):
                 flags[f] = Flag()
-            env = simpy.Environment()
+            env = simpy.Environment(program.get('initial', 0))
             events, procs = build(env, flags)
             holder['env'] = env
             from ..kernel import ExecTimer
@@ -662,6 +662,11 @@ def cases(tier):
                 base = {'family': fam, 'procs': [['p0', p0], ['p1', p1]], 'until': u, 'events': ['e0', 'e1'], 'mode': 'standalone'}
                 if fam == 'chain':
                     base['chains'] = [['e0', 'e1']]
+                if fam in ('events', 'proc') and len(s0) + len(s1) <= 3:
+                    late = dict(base)
+                    late['initial'] = 5
+                    late['until'] = (u + 5) if isinstance(u, (int, float)) else u
+                    out.append(late)
                 if fam in ('events', 'chain') and u is None and any(op[0] == 'fail' for op in p0 + p1):
                     sup = dict(base)
                     sup['defuse'] = ['e0', 'e1']
